@@ -7,6 +7,7 @@
 #define VERIF_OWN_HOOK
 #include "common/verif.hpp"
 #include <frg/qs.hpp>
+#include <frg/spinlock.hpp>
 #include <thread>
 #include <atomic>
 #include <mutex>
@@ -44,7 +45,11 @@ static void reclaim(frg::qs_node *n) {
 	delete o;
 }
 
+#ifdef C11_TICKET_MUTEX
+using Mutex = frg::ticket_spinlock; // the domain mutex managarm itself uses (the guard code may special-case what a mutex type offers)
+#else
 using Mutex = std::mutex;
+#endif
 
 // offline_updater: the updater registers its callbacks and calls run() as an agent that is NOT online (a pure writer is no reader)
 static void torture(long long idx, int nreaders, unsigned updates, bool joiners, bool barrier_caller, bool offline_updater = false) {
